@@ -4,8 +4,8 @@ Stores a verified seeded change under /verif/seeded/<ID>-<k>/ (patch.diff, demo_
 import json, sys, os, shutil
 r = json.loads(sys.argv[1]); pkg = sys.argv[2]; needs = sys.argv[3]; note = sys.argv[4] if len(sys.argv) > 4 else ""
 i, k = r["id"], r["k"]
-src = f"/tmp/seed/out/{i}"
-dst = f"/verif/seeded/{i}-{k}"
+src = os.environ.get("SEED_OUT", "/tmp/seed/out") + f"/{i}"
+dst = f"/verif/seeded/{i}-{k}" + os.environ.get("SEED_SUFFIX", "")
 os.makedirs(dst, exist_ok=True)
 shutil.copy(f"{src}/patch{k}.diff", f"{dst}/patch.diff")
 shutil.copy(f"{src}/demo{k}_test.go", f"{dst}/demo_test.go")
